@@ -387,6 +387,10 @@ func (f *Frame) scanCallMods(cc *ssa.CallCommon, ms *modSet, seen map[*ssa.Funct
 		}
 		return
 	}
+	if fn != nil && jsonUnmarshalKeys[keyOfFunction(fn)] {
+		ms.all = true
+		return
+	}
 	if fn != nil && e.isPurePkg(fn) {
 		return
 	}
